@@ -204,7 +204,45 @@ def _lazy_user_epilogue(w, t) -> None:
     tid = h.transaction_id
     if tid is None or h.states.state.name != "BUSY":
         return
-    if t.choose(2, "epilogue variant") == 1:
+    variant = t.choose(3, "epilogue variant")
+    if variant == 2:
+        # (b) for a user who submits the next put request right after the accepted cancel (the handler is idle at once in
+        # unacknowledged mode) and fetches PDUs for as long as `packets_ready` says so: the EOF (cancel) is still the next
+        # PDU handed out, so the public packet counter must not hide it
+        a.nodrain = True
+        rc = w.call(a, "src", "cancel", arg=tid)
+        if rc.exc is not None or rc.ret is not True or rc.post.state != "IDLE" or not h.packets_ready:
+            a.nodrain = False
+            while h.get_next_packet() is not None:
+                pass
+            a.drained["src"] = True
+            return
+        req2 = w.put_request_obj()
+        req2.trans_mode = UNACK
+        req2.dest_file = Path("dst/epilogue2.bin")
+        rp = w.call(a, "src", "put", arg=req2)
+        a.nodrain = False
+        w.probe("C12.lazy_user_put_after_cancel")
+        ready, n = h.packets_ready, h.num_packets_ready
+        first = h.get_next_packet()
+        if rp.exc is None and rp.ret is True:
+            if first is None:
+                w.violate("C12.b_no_eof", "EOF (cancel) gone after the next put request was accepted", "")
+            else:
+                from cfdpsim.world import pdu_info, pdu_kind
+                inf = pdu_info(first.pdu)
+                if pdu_kind(first.pdu) != "EOF" or inf[1] != CANCEL_REQ:
+                    w.violate("C12.b_next_pdu_not_eof", f"kind={pdu_kind(first.pdu)} after cancel + put", "")
+                if not ready:
+                    w.violate("C12.b_eof_hidden", f"packets_ready={ready} num_packets_ready={n} although the EOF (cancel) is queued "
+                              "(a user who fetches while packets_ready is true never sends it)", "")
+        while h.get_next_packet() is not None:
+            pass
+        if h.num_packets_ready != 0:
+            w.violate("C12.b_eof_hidden", f"num_packets_ready={h.num_packets_ready} with an empty queue after cancel + put", "")
+        a.drained["src"] = True
+        return
+    if variant == 1:
         # (b) for the same kind of user: the state machine has generated a PDU that the user has not fetched yet when the
         # cancel request is made. Either the request is refused with the documented UnretrievedPdusToBeSent and changes
         # nothing, or it is accepted - then the EOF (cancel) must describe the file bytes that were really SENT
